@@ -172,6 +172,9 @@ class SsbGraphMinimizer:
                     # Common end label
                     find_first_common_next_vertex_in_edges__clear_cache(g)  # TODO: Cache seems to be broken atm.
                     result = find_first_common_next_vertex_in_edges(g, [if_edge, else_edge])
+                    if result is not None and self._dominates(g, result[0].target, v.index):
+                        # Both branches only meet again by looping back to a point before the branch: no if end.
+                        result = None
                     if result is not None:
                         e_on_if_bef_end, e_on_else_bef_end = result
                         end_vertex = e_on_if_bef_end.target_vertex
@@ -889,6 +892,14 @@ class SsbGraphMinimizer:
                 next_ops.append((flow_level, op_i + 1))
 
         return next_ops
+
+    @staticmethod
+    def _dominates(g: Graph, v: int, other: int) -> bool:
+        """Whether every path from the start of the routine to the vertex other passes through v."""
+        dominators = g.dominator(0)
+        while other != v and dominators[other] >= 0 and dominators[other] != other:
+            other = dominators[other]
+        return other == v
 
     @classmethod
     def _reconnect(
